@@ -153,7 +153,31 @@ fn argv_cmd(r: &mut Rng) -> Cmd {
     Cmd { argv, stdin, cwd: "/".into() }
 }
 
-pub fn generate(r: &mut Rng, tier: Tier) -> serde_json::Value {
+pub const SYSTEMATIC_GROUPS: u64 = 8;
+
+pub fn generate(r: &mut Rng, tier: Tier, group: u64) -> serde_json::Value {
+    if group < SYSTEMATIC_GROUPS {
+        // the deterministic part of the argv workload: slice `group` of the systematic list
+        let all = argvgen::systematic();
+        let commands: Vec<Cmd> = all
+            .into_iter()
+            .enumerate()
+            .filter(|(i, _)| *i as u64 % SYSTEMATIC_GROUPS == group)
+            .map(|(_, argv)| Cmd { argv, stdin: StdinSpec::Null, cwd: "/".into() })
+            .collect();
+        let sc = Scenario {
+            mode: "argv".into(),
+            actors: vec![Actor { clock: 1_600_000_000, tz: "+0000".into() }],
+            ops: vec![],
+            degenerate: "no-git".into(),
+            commands,
+            sim_now: 1_800_000_000,
+            only: None,
+            sample_seed: r.next(),
+            shard: None,
+        };
+        return serde_json::to_value(sc).unwrap();
+    }
     let mode = match r.below(20) {
         0..=6 => "gitfaults",
         7..=13 => "argv",
@@ -366,6 +390,7 @@ fn make_call(rd: &RunDir, cmd: &Cmd, repo: &Path, sim_now: i64, case_dir: &str) 
         stdin: stdin_of(&cmd.stdin),
         path: None,
         rm_cwd: false,
+        stdout: crate::proc::Stdout::Capture,
     };
     match cmd.cwd.as_str() {
         "deleted" => {
@@ -603,7 +628,7 @@ pub fn execute(ctx: &Ctx, scv: &serde_json::Value, rd: &RunDir, stats: &mut Stat
         let replaying_this = sc.only.as_deref() == Some(base_case.as_str());
         let (base, n_inv) = rn.child(cmd, &repo, &base_case, "", None, &[], &[]);
         let base_trace = rn.rd.trace();
-        let first_shard = sc.shard.map(|(i, _)| i == 0).unwrap_or(true);
+        let first_shard = sc.mode == "argv" || sc.shard.map(|(i, _)| i == 0).unwrap_or(true);
         if replaying_this || (sc.only.is_none() && first_shard && (sc.mode != "argv" || rn.pick(&base_case, 4) || every_verbosity)) {
             rn.verbosity_identity(cmd, &repo, &base_case, "", &base);
         }
@@ -806,6 +831,44 @@ pub fn execute(ctx: &Ctx, scv: &serde_json::Value, rd: &RunDir, stats: &mut Stat
                     let (o, _) = rn.child(&c2, &repo, &case, "", None, &[], &[]);
                     rn.stats.bump(&format!("fault.stdin.{name}"));
                     rn.stats.distinct_key(&format!("stdin|{name}|{zsub}|{}", if o.ok() { "ok" } else { "fail" }));
+                }
+                // stdout faults: the reader is gone (EPIPE) or the device is full (ENOSPC)
+                for (name, mode, extra) in [
+                    ("closed", crate::proc::Stdout::ClosedPipe, None),
+                    ("full", crate::proc::Stdout::DevFull, None),
+                    ("closed-help", crate::proc::Stdout::ClosedPipe, Some("--help")),
+                    ("full-help", crate::proc::Stdout::DevFull, Some("--help")),
+                    ("closed-version", crate::proc::Stdout::ClosedPipe, Some("--version")),
+                    ("full-llm-help", crate::proc::Stdout::DevFull, Some("--llm-help")),
+                ] {
+                    let case = format!("c{ci}:stdout:{name}");
+                    if !rn.wanted(&case) {
+                        continue;
+                    }
+                    let mut c2 = cmd.clone();
+                    match extra {
+                        Some("--version") | Some("--llm-help") => c2.argv = vec![extra.unwrap().to_string()],
+                        Some(e) => c2.argv.push(e.to_string()),
+                        None => {}
+                    }
+                    rn.rd.set_plan(&format!("budget {STEP_BUDGET}\n"));
+                    rn.rd.reset_trace();
+                    let mut call = make_call(rn.rd, &c2, &repo, sc.sim_now, "stdout");
+                    call.stdout = mode;
+                    call.env = vec![("PAGER".into(), "cat".into())];
+                    let o = run_zerv(ctx, rd, &call, rn.stats);
+                    rn.stats.bump("children");
+                    rn.stats.bump(&format!("fault.stdout.{name}"));
+                    rn.stats.distinct_key(&format!("stdout|{name}|{zsub}|{}", o.status_str()));
+                    rn.stats.event(format!("case {case} argv={:?} -> {} err={}", c2.argv, o.status_str(), short(&norm(ctx, &o.err_str()), 300)));
+                    // stdout is lost by construction: only the no-panic / no-abort / liveness part applies
+                    let mut o2 = o.clone();
+                    o2.stdout.clear();
+                    if let Some(v) = judge_child(&o2, &c2.argv, &case, 0) {
+                        if v.clause == "no-panic" || v.clause == "no-abort" || v.clause == "liveness" {
+                            rn.viol.push(v);
+                        }
+                    }
                 }
                 // cwd faults
                 for name in ["deleted", "dash-c-file", "dash-c-missing", "dash-c-empty", "dash-c-dotgit", "dash-c-nonutf8"] {
